@@ -269,8 +269,11 @@ impl<'a, DL: HeaderFieldsProvider> HeaderAcceptor<'a, DL> {
                     true
                 }
             } else {
+                // UnknownParentError: the header does not connect to anything we know. The message
+                // is unacceptable, but that says nothing about the header itself: it must not be
+                // recorded as invalid (the mark would outlive the moment its parent arrives).
                 state.invalid(Some(ValidationError::Verify(error)));
-                true
+                false
             }
         })
     }
